@@ -403,7 +403,18 @@ fn json_case<CS: BbsCiphersuite>(rep: &Report, ck: &str, h: &Honest, c: &JsonCas
         6 => serde_json::to_string(&KeyPair::<BBSplus<CS>>::generate(&[9u8; 32], None, None).unwrap()).unwrap(),
         _ => serde_json::to_string(&BBSplusMessage::map_message_to_scalar_as_hash::<CS>(b"m", CS::API_ID).unwrap()).unwrap(),
     };
-    let s = mutate_json(&honest_json, &c.edits);
+    let mut s = mutate_json(&honest_json, &c.edits);
+    // the generic wrappers are enums: the tag of another scheme, or of the type-level placeholder variant, in front
+    // of the payload (or of nothing) is a document an attacker can send just as well
+    if matches!(c.ty, 2 | 3 | 4) && c.edits.len() % 2 == 1 {
+        let variant = c.edits[0].2 % 4;
+        s = match variant {
+            0 => "{\"_Unreachable\":null}".to_string(),
+            1 => s.replacen("\"BBSplus\"", "\"_Unreachable\"", 1),
+            2 => s.replacen("\"BBSplus\"", "\"CL03\"", 1),
+            _ => "{\"CL03\":{\"e\":{\"radix\":16,\"value\":\"3\"},\"s\":{\"radix\":16,\"value\":\"5\"},\"v\":{\"radix\":16,\"value\":\"7\"}}}".to_string(),
+        };
+    }
     let inp = || json!({"case": c, "json": truncate(&s, 2000)});
     let units = s.len() / 32 + 8;
     match c.ty {
@@ -415,8 +426,16 @@ fn json_case<CS: BbsCiphersuite>(rep: &Report, ck: &str, h: &Honest, c: &JsonCas
         }
         2 => {
             call(rep, ck, "json:Signature(+verify)", units, inp, || match serde_json::from_str::<Signature<BBSplus<CS>>>(&s) {
-                Ok(Signature::BBSplus(x)) => {
-                    let _ = Signature::<BBSplus<CS>>::BBSplus(x).verify(&pk, Some(&h.msgs), Some(&h.header));
+                Ok(x) => {
+                    let _ = x.verify(&pk, Some(&h.msgs), Some(&h.header));
+                    let _ = x.update_signature(&sk, &h.msgs[0], b"new", 0, h.msgs.len());
+                    true
+                }
+                _ => false,
+            })?;
+            call(rep, ck, "json:BlindSignature(+verify_blind_sign)", units, inp, || match serde_json::from_str::<BlindSignature<BBSplus<CS>>>(&s) {
+                Ok(x) => {
+                    let _ = x.verify_blind_sign(&pk, Some(&h.header), Some(&h.msgs), None, None);
                     true
                 }
                 _ => false,
@@ -424,10 +443,12 @@ fn json_case<CS: BbsCiphersuite>(rep: &Report, ck: &str, h: &Honest, c: &JsonCas
         }
         3 => {
             call(rep, ck, "json:PoKSignature(+verify)", units, inp, || match serde_json::from_str::<PoKSignature<BBSplus<CS>>>(&s) {
-                Ok(PoKSignature::BBSplus(x)) => {
-                    let p = PoKSignature::<BBSplus<CS>>::BBSplus(x);
+                Ok(p) => {
                     let _ = p.proof_verify(&pk, Some(&[h.msgs[0].clone(), h.msgs[2].clone()]), Some(&[0, 2]), Some(&h.header), Some(&h.ph));
-                    let _ = p.to_bytes();
+                    let _ = p.blind_proof_verify(&pk, Some(&h.header), Some(&h.ph), Some(h.msgs.len()), Some(&[h.msgs[0].clone()]), None, Some(&[0]), None);
+                    if let PoKSignature::BBSplus(_) = p {
+                        let _ = p.to_bytes();
+                    }
                     true
                 }
                 _ => false,
